@@ -3,6 +3,8 @@ package main
 // SMT query generation and the solver portfolio.
 
 import (
+	"sync/atomic"
+	"sort"
 	"bytes"
 	"context"
 	"fmt"
@@ -405,9 +407,9 @@ func getModel(query string, backend string, dir string) string {
 // SolveAll discharges obligations in parallel.
 func SolveAll(obls []*Obl, workDir string, timeoutMs int, all bool) {
 	os.MkdirAll(workDir, 0755)
-	nw := runtime.NumCPU() / 2
-	if nw > 8 {
-		nw = 8
+	nw := runtime.NumCPU() - 2
+	if nw > 14 {
+		nw = 14
 	}
 	if nw < 1 {
 		nw = 1
@@ -417,8 +419,9 @@ func SolveAll(obls []*Obl, workDir string, timeoutMs int, all bool) {
 	covered := map[string]bool{}
 	sem := make(chan struct{}, nw)
 	var wg sync.WaitGroup
+	solve := func(id string, o *Obl) { solveOne(id, o, workDir, timeoutMs, all, &mu, covered) }
 	for i, o := range obls {
-		if o.Status != "" {
+		if o.Status != "" || o.Kind == "deadprobe" {
 			continue
 		}
 		wg.Add(1)
@@ -426,6 +429,62 @@ func SolveAll(obls []*Obl, workDir string, timeoutMs int, all bool) {
 		go func(i int, o *Obl) {
 			defer wg.Done()
 			defer func() { <-sem }()
+			solve(fmt.Sprintf("%05d", i), o)
+		}(i, o)
+	}
+	wg.Wait()
+	if os.Getenv("WALVC_PROF") != "" {
+		fmt.Fprintf(os.Stderr, "prof: build %.1fs preinst %.1fs portfolio %.1fs (summed over workers)\n", time.Duration(profBuild).Seconds(), time.Duration(profPre).Seconds(), time.Duration(profSolve).Seconds())
+	}
+	solveDeadProbes(obls, workDir)
+}
+
+// solveOne decides one obligation. A goal with several conjuncts is first
+// tried as a whole; only if that is not proved quickly are the conjuncts
+// decided one by one (the obligation then takes the name and verdict of the
+// first conjunct that is not proved).
+func solveOne(id string, o *Obl, workDir string, timeoutMs int, all bool, mu *sync.Mutex, covered map[string]bool) {
+	if len(o.Pieces) > 1 && o.Expect != "sat" {
+		pieces := o.Pieces
+		o.Pieces = nil
+		if !all {
+			q := o.BuildSlicedQuery()
+			f := filepath.Join(workDir, fmt.Sprintf("q%s.smt2", id))
+			os.WriteFile(f, []byte(q), 0644)
+			fast := raceFast(f)
+			os.Remove(f)
+			if fast != nil {
+				o.Query = q
+				o.Status, o.Backend, o.Ms = "proved", fast.backend, fast.ms
+				return
+			}
+		}
+		base := o.Name
+		var ms int64
+		backend := ""
+		for k, g := range pieces {
+			if g.Const && g.V == 1 {
+				continue
+			}
+			sub := *o
+			sub.Goal = g
+			sub.Name = fmt.Sprintf("%s/%d", base, k+1)
+			sub.Status = ""
+			solveOne(fmt.Sprintf("%s_%d", id, k+1), &sub, workDir, timeoutMs, all, mu, covered)
+			ms += sub.Ms
+			backend = sub.Backend
+			if sub.Status != "proved" {
+				*o = sub
+				o.Ms = ms
+				return
+			}
+		}
+		o.Status, o.Backend, o.Ms = "proved", backend, ms
+		return
+	}
+	{
+		i := id
+		{
 			if o.Expect == "sat" {
 				mu.Lock()
 				done := covered[o.Name]
@@ -436,38 +495,50 @@ func SolveAll(obls []*Obl, workDir string, timeoutMs int, all bool) {
 					return
 				}
 			}
-			if o.Kind == "deadprobe" {
-				// single fast solver on the full query: unsat = the path is dead
-				q := o.BuildQuery()
-				o.Query = q
-				f := filepath.Join(workDir, fmt.Sprintf("q%05d.smt2", i))
-				os.WriteFile(f, []byte(q), 0644)
-				procSlots <- struct{}{}
-				t0 := time.Now()
-				out, _ := exec.Command("z3-new", "-T:3", f).CombinedOutput()
-				<-procSlots
-				o.Ms = time.Since(t0).Milliseconds()
-				o.Backend = "z3-new"
-				if strings.HasPrefix(strings.TrimSpace(string(out)), "unsat") {
-					o.Status = "dead"
-				} else {
-					o.Status = "alive"
-				}
-				return
-			}
+			tb := time.Now()
 			q := o.BuildSlicedQuery()
+			atomic.AddInt64(&profBuild, int64(time.Since(tb)))
 			o.Query = q
-			f := filepath.Join(workDir, fmt.Sprintf("q%05d.smt2", i))
+			f := filepath.Join(workDir, fmt.Sprintf("q%s.smt2", i))
 			os.WriteFile(f, []byte(q), 0644)
 			pf := ""
-			if o.Expect != "sat" {
-				if pq := PreInstantiate(q, 3); pq != "" {
-					pf = filepath.Join(workDir, fmt.Sprintf("q%05d.pre.smt2", i))
+			// fast path: most obligations are decided by one solver well within a
+			// second; pre-instantiation and the portfolio are for the rest
+			var fast *solveResult
+			if o.Expect != "sat" && !all {
+				// the same sliced query often recurs on several paths: decide it once
+				key := queryKey(q)
+				fastMu.Lock()
+				ent := fastCache[key]
+				if ent == nil {
+					ent = &fastEntry{}
+					fastCache[key] = ent
+				}
+				fastMu.Unlock()
+				ent.once.Do(func() { ent.res = raceFast(f) })
+				if ent.res != nil {
+					c := *ent.res
+					fast = &c
+				}
+			}
+			if o.Expect != "sat" && fast == nil {
+				tp := time.Now()
+				pq := PreInstantiate(q, 3)
+				atomic.AddInt64(&profPre, int64(time.Since(tp)))
+				if pq != "" {
+					pf = filepath.Join(workDir, fmt.Sprintf("q%s.pre.smt2", i))
 					os.WriteFile(pf, []byte(pq), 0644)
 					defer os.Remove(pf)
 				}
 			}
-			r := runPortfolio(f, pf, timeoutMs, all && o.Expect != "sat")
+			ts := time.Now()
+			var r solveResult
+			if fast != nil {
+				r = *fast
+			} else {
+				r = runPortfolio(f, pf, timeoutMs, all && o.Expect != "sat")
+			}
+			atomic.AddInt64(&profSolve, int64(time.Since(ts)))
 			o.Backend, o.Ms = r.backend, r.ms
 			if o.Expect == "sat" {
 				switch r.status {
@@ -492,7 +563,7 @@ func SolveAll(obls []*Obl, workDir string, timeoutMs int, all bool) {
 						os.WriteFile(f, []byte(fq), 0644)
 						pf2 := ""
 						if pq := PreInstantiate(fq, 3); pq != "" {
-							pf2 = filepath.Join(workDir, fmt.Sprintf("q%05d.pre2.smt2", i))
+							pf2 = filepath.Join(workDir, fmt.Sprintf("q%s.pre2.smt2", i))
 							os.WriteFile(pf2, []byte(pq), 0644)
 							defer os.Remove(pf2)
 						}
@@ -512,7 +583,7 @@ func SolveAll(obls []*Obl, workDir string, timeoutMs int, all bool) {
 						r = r2
 					}
 					o.Status = "refuted"
-					o.Model = getModel(q, r.backend, workDir+fmt.Sprintf("/m%05d", i))
+					o.Model = getModel(q, r.backend, workDir+fmt.Sprintf("/m%s", i))
 				default:
 					o.Status = "unknown"
 					o.Model = r.output
@@ -534,7 +605,149 @@ func SolveAll(obls []*Obl, workDir string, timeoutMs int, all bool) {
 				}
 			}
 			os.Remove(f)
-		}(i, o)
+		}
 	}
-	wg.Wait()
+}
+
+var profBuild, profPre, profSolve int64
+
+type fastEntry struct {
+	once sync.Once
+	res  *solveResult
+}
+
+var (
+	fastMu    sync.Mutex
+	fastCache = map[string]*fastEntry{}
+)
+
+// queryKey is the query text without its comment lines.
+func queryKey(q string) string {
+	var b strings.Builder
+	for _, l := range strings.Split(q, "\n") {
+		if strings.HasPrefix(l, ";") {
+			continue
+		}
+		b.WriteString(l)
+		b.WriteByte('\n')
+	}
+	return b.String()
+}
+
+// raceFast runs z3-new and cvc5 side by side for two seconds; the first
+// `unsat` wins (each decides goals the other needs much longer for).
+func raceFast(f string) *solveResult {
+	ctx, cancel := context.WithCancel(context.Background())
+	defer cancel()
+	type ans struct {
+		name string
+		out  string
+		ms   int64
+	}
+	cmds := [][]string{{"z3-new", "-T:2", f}, {"cvc5", "--full-saturate-quant", "--tlimit=2000", f}}
+	ch := make(chan ans, len(cmds))
+	for _, c := range cmds {
+		go func(c []string) {
+			select {
+			case procSlots <- struct{}{}:
+			case <-ctx.Done():
+				ch <- ans{c[0], "", 0}
+				return
+			}
+			defer func() { <-procSlots }()
+			t0 := time.Now()
+			out, _ := exec.CommandContext(ctx, c[0], c[1:]...).CombinedOutput()
+			ch <- ans{c[0], string(out), time.Since(t0).Milliseconds()}
+		}(c)
+	}
+	for range cmds {
+		a := <-ch
+		if strings.HasPrefix(strings.TrimSpace(a.out), "unsat") {
+			return &solveResult{status: "unsat", backend: a.name, ms: a.ms, output: a.out}
+		}
+	}
+	return nil
+}
+
+// solveDeadProbes decides, per unit, whether some return is reachable under
+// all (also the quantified) assumptions. A unit with a covered return on a
+// quantifier-free path needs no probe; otherwise its probes run (last return
+// first, four at a time) until one is not provably dead.
+func solveDeadProbes(obls []*Obl, workDir string) {
+	probed := map[string]bool{}
+	byUnit := map[string][]*Obl{}
+	var units []string
+	for _, o := range obls {
+		if o.Kind == "deadprobe" && o.Status == "" {
+			probed[o.Unit+"@"+o.Path] = true
+			if _, ok := byUnit[o.Unit]; !ok {
+				units = append(units, o.Unit)
+			}
+			byUnit[o.Unit] = append(byUnit[o.Unit], o)
+		}
+	}
+	exact := map[string]bool{}
+	for _, o := range obls {
+		if o.Kind == "cover" && o.Status == "covered" && strings.Contains(o.Name, "/cover:return") && !probed[o.Unit+"@"+o.Path] {
+			exact[o.Unit] = true
+		}
+	}
+	var uwg sync.WaitGroup
+	for _, u := range units {
+		ps := byUnit[u]
+		if exact[u] {
+			for _, o := range ps {
+				o.Status = "skipped"
+			}
+			continue
+		}
+		uwg.Add(1)
+		go func(u string, ps []*Obl) {
+			defer uwg.Done()
+			// last return first: the success return is usually the last one
+			sort.SliceStable(ps, func(i, j int) bool { return ps[i].Name > ps[j].Name })
+			alive := false
+			for i := 0; i < len(ps); i += 4 {
+				if alive {
+					for _, o := range ps[i:] {
+						o.Status = "skipped"
+					}
+					break
+				}
+				j := i + 4
+				if j > len(ps) {
+					j = len(ps)
+				}
+				var wg sync.WaitGroup
+				var mu sync.Mutex
+				for k, o := range ps[i:j] {
+					wg.Add(1)
+					go func(k int, o *Obl) {
+						defer wg.Done()
+						q := o.BuildQuery()
+						o.Query = q
+						f := filepath.Join(workDir, fmt.Sprintf("dp_%s_%d.smt2", sanitize(u), i+k))
+						os.WriteFile(f, []byte(q), 0644)
+						defer os.Remove(f)
+						procSlots <- struct{}{}
+						t0 := time.Now()
+						out, _ := exec.Command("z3-new", "-T:2", f).CombinedOutput()
+						<-procSlots
+						o.Ms = time.Since(t0).Milliseconds()
+						o.Backend = "z3-new"
+						if strings.HasPrefix(strings.TrimSpace(string(out)), "unsat") {
+							o.Status = "dead"
+						} else {
+							o.Status = "alive"
+							mu.Lock()
+							alive = true
+							mu.Unlock()
+						}
+					}(k, o)
+				}
+				wg.Wait()
+			}
+		}(u, ps)
+	}
+	uwg.Wait()
 }
